@@ -20,6 +20,7 @@ pub struct BfsResult {
     pub violations: u64,
 }
 
+#[allow(dead_code)]
 pub enum Event<'a, Op, Info> {
     New { hist: &'a [Op], info: &'a Info, depth: usize },
     Violation { hist: &'a [Op], text: String },
